@@ -288,12 +288,76 @@ def solve_check(kind, case, rec):
     sc = max(float(np.abs(ref).max()), 1e-12)
     rec.close("reduced-system", float(np.abs(du[dof1] - ref).max()) / sc, 1e-9)
     rec.close("prescribed-increments", float(np.abs(du[dof0] - (e0 - u[dof0])).max()), 0.0)
+    # one partitioned system solved for several load cases (linear model without re-assembly): solve() leaves it unchanged
+    if case["seed"] % 2 == 0:
+        for rep in range(2):
+            e2 = rng.uniform(-1, 1, k0)
+            du2 = np.asarray(fem.solve.solve(*system, e2)).ravel()
+            rhs2 = -(r[dof1] if r is not None else 0) - Kd[np.ix_(dof1, dof0)] @ (e2 - u[dof0])
+            ref2 = np.linalg.solve(Kd[np.ix_(dof1, dof1)], rhs2 * np.ones(len(dof1)))
+            rec.close("reduced-system(system re-used)", float(np.abs(du2[dof1] - ref2).max()) / max(float(np.abs(ref2).max()), 1e-12), 1e-9, {"solve": rep + 2})
+        if r is not None:
+            rec.require("solve-leaves-residual-unchanged", np.array_equal(np.asarray(system[-1]).ravel(), r[dof1]))
     u_, u0_, K11, K10, d1, d0, r1 = system
     rec.require("partition-blocks", np.array_equal(K11.toarray(), Kd[np.ix_(dof1, dof1)]) and np.array_equal(K10.toarray(), Kd[np.ix_(dof1, dof0)])
                 and np.array_equal(np.asarray(u0_), u[dof0]))
 
 
+def scalar_strategy(kind, tier):
+    return st.fixed_dictionaries({"n": st.lists(st.integers(3, 5), min_size=3, max_size=3), "seed": st.integers(0, 2**16), "norph": st.integers(0, 3),
+                                  "values": st.lists(st.floats(-2, 2).map(lambda v: round(v, 2)), min_size=2, max_size=2), "jitter": st.sampled_from([0.0, 0.2])})
+
+
+def scalar_check(kind, case, rec):
+    """steady heat conduction (Laplace): one scalar unknown per point on a 2-D / 3-D mesh that carries points without cells
+    anywhere in the numbering; linear problem -> one update, prescribed values kept, equilibrium on all free unknowns"""
+    fem = import_felupe()
+    dim = 2 if kind == "quad" else 3
+    grid = (fem.Rectangle if dim == 2 else fem.Cube)(n=tuple(case["n"][:dim]))
+    rng = np.random.default_rng(case["seed"])
+    P, C = np.array(grid.points), np.array(grid.cells)
+    if case["jitter"]:
+        inner = np.all((P > 1e-9) & (P < 1 - 1e-9), axis=1)
+        P[inner] += case["jitter"] / (max(case["n"][:dim]) - 1) * rng.uniform(-0.5, 0.5, (int(inner.sum()), dim))
+    for _ in range(case["norph"]):
+        pos = int(rng.integers(0, len(P) + 1))
+        P = np.insert(P, pos, rng.uniform(0.2, 0.8, dim) + 1.5, axis=0)
+        C = C + (C >= pos)
+    mesh = fem.Mesh(P, C, grid.cell_type)
+    region = (fem.RegionQuad if dim == 2 else fem.RegionHexahedron)(mesh)
+    T = fem.Field(region, dim=1)
+    fc = fem.FieldContainer([T])
+    va, vb = case["values"]
+    bounds = dict(left=fem.Boundary(T, fx=0.0, value=va), right=fem.Boundary(T, fx=1.0, value=vb))
+    dof0, dof1 = fem.dof.partition(fc, bounds)
+    ext0 = fem.dof.apply(fc, bounds, dof0)
+    res = fem.newtonrhapson(x0=fc, kwargs=dict(umat=fem.Laplace(), grad=True, add_identity=False, sym=False), dof0=dof0, dof1=dof1, ext0=ext0, verbose=False)
+    Tv = res.x[0].values.ravel()
+    x = P[:, 0]
+    attached = np.zeros(len(P), bool)
+    attached[np.unique(C)] = True
+    pres = {}
+    for i in np.where(np.isclose(x, 0.0) & attached)[0]:
+        pres[int(i)] = va
+    for i in np.where(np.isclose(x, 1.0) & attached)[0]:
+        pres[int(i)] = vb
+    free = np.array([i for i in range(len(P)) if attached[i] and i not in pres], dtype=int)
+    rec.nontrivial = case["norph"] >= 1 and va != vb
+    rec.label(f"cell-less-points={case['norph']}")
+    rec.require("success", bool(res.success))
+    rec.close("prescribed-values-kept", max([abs(Tv[i] - v) for i, v in pres.items()] + [0.0]), 0.0)
+    rec.close("cell-less-points-untouched", float(np.abs(Tv[~attached]).max()) if (~attached).any() else 0.0, 0.0)
+    H = res.x.extract(grad=True, add_identity=False)
+    r = np.asarray(fem.IntegralForm([H[0]], res.x, region.dV).assemble().toarray()).ravel()
+    reaction = float(np.linalg.norm(r[list(pres)]))
+    rec.close("residual-on-free-unknowns", float(np.linalg.norm(r[free])) / (1e-3 + reaction), 1.5e-8, {"free": len(free), "dof1": len(dof1)})
+    rec.require("free-set=attached-and-not-prescribed", np.array_equal(np.sort(np.asarray(dof1)), free), [len(dof1), len(free)])
+    rec.require("linear-problem-converges-with-the-first-update", int(res.iterations) <= 2 and (len(res.xnorms) < 2 or res.xnorms[1] <= 1e-9 * max(1.0, res.xnorms[0])),
+                {"iterations": int(res.iterations)})
+
+
 FAMILIES = [
+    Family("scalar", ["quad", "hexahedron"], scalar_check, strategy=scalar_strategy, n={"quick": 15, "thorough": 400}, chunk=5),
     Family("newton", CLASSES, check, strategy=strategy, n={"quick": 24, "thorough": 1200}, chunk=8, weight=3),
     Family("solve", ["spd", "unsymmetric"], solve_check, strategy=solve_strategy, n={"quick": 30, "thorough": 3000}, chunk=50),
 ]
